@@ -3,8 +3,12 @@ From Signalo Require Import Check.Common Model.Ledger.
 (* clive: live values of the instrumented sample type after every operation, as counted by the
    harness's ledger; canom: ledger anomalies (drop of a value that is not live, use of a dropped value);
    cfinal: live values after every instance has been dropped *)
-Record case := mk { ck : kind; cn : nat; cops : list op; clive : list nat; canom : nat; cfinal : nat; cpanic : bool }.
+Record case := mk { ck : kind; cn : nat; cops : list op; clive : list nat; canom : nat; cfinal : nat; cpanic : bool; cfault : bool }.
+(* cfault: the program contains filter calls during which the sample type's own clone / comparison was made to panic
+   (caught by the harness).  The ledger model says nothing about the state after an unwinding, and leaking on a panic is
+   allowed: only "no value dropped twice, none used after its drop" is judged on these. *)
 Definition check (c : case) : verdict :=
+  if cfault c then mkv true (canom c =? 0)%nat true else
   let expect := run_ops (ck c) (cn c) [Some (fresh (ck c) (cn c))] (cops c) in
   let model_ok := negb (cpanic c) && list_eqb Nat.eqb expect (clive c) in
   let spec_ok := negb (cpanic c) && (canom c =? 0)%nat && (cfinal c =? 0)%nat && (length (clive c) =? length (cops c))%nat in
